@@ -320,6 +320,17 @@ func C10(ctx *core.Ctx) {
 	ctx.Rule("C10.R4", "enum numbering: the running counter exceeds every value numbered so far", 1)
 	c10EnumNumbering(ctx)
 	c10Literals(ctx)
+	if cc := LoadCC(ctx); cc.OK() {
+		ctx.Rule("C10.R7", "integer literals are decoded in base 10 (the grammar matches decimal digits only)", 1)
+		var pfns []*ssa.Function
+		for _, fn := range cc.Fns {
+			if fn.Pkg == cc.Pkg("parser") {
+				pfns = append(pfns, fn)
+			}
+		}
+		radixAgreement(ctx, pfns, cc.IPos, QName, "C10.R7", "base 0 re-reads a literal with a leading zero as octal (010 = 8) and rejects 08/09: field ids, enum values and constants differ from what the IDL declares")
+		c10ParseCache(ctx, cc)
+	}
 	gs, err := peg.ParseSource(string(src))
 	if err != nil {
 		ctx.LoadError("grammar.peg: " + err.Error())
